@@ -48,7 +48,13 @@ MANIFEST = {
                 "swapChain_dstep tying the chain to dstep's swap, gen_nullData); fuel monotonicity of release (release_mono) closes the f/f+1 gap of the "
                 "boxed assignment (gen_set*_fuel); the translator's two reorderings are lemmas (PropsGenOrder: release_frame, hoist_order, destroy_order); "
                 "atof of decimal texts with fraction/exponent: toDouble_fraction (parse to the exact rational) and atof_rounding_correct (the rounding "
-                "used for negative decimal exponents is the nearest double, ties to even, incl. subnormals and carry; carried over from the codec area).",
+                "used for negative decimal exponents is the nearest double, ties to even, incl. subnormals and carry; carried over from the codec area).  "
+                "Third leg: the translator inlines private member helpers (templates, predicates, helpers on another object), saved data pointers, "
+                "const aliases, a pointer test other.data == data and a swap written as an exchange of representations; assign_spec/gen_assign and "
+                "gen_swap/gen_swap_self speak about the resulting heap and cells only (swap: cells exchanged, heap unchanged; swapChain_id), so a body "
+                "with another NUMBER of atomic operations meets them; atof of integers of any size (dOfNat_rounded, toDouble_fraction_int, "
+                "toDouble_numeral_any) and of texts without integer part (toDouble_fraction_noint); the nested walk over the translated accessors "
+                "(walkMutT_eq_partial: equal to the model's walk when every cell on the path is live).",
         "note": "Trusted: Lean kernel + the three standard axioms; the translator tools/gen_variant.py (Python; its rules: NSTD_VERIF_RC_YIELD hook "
                 "macros dropped; `&other != this` is a parameter, `other` is read only where that test holds and never after clear(); `->~T()` detaches "
                 "the elements, which are destroyed right after delete[] (the model's order unlink-then-destroy); `->type = K; ->ref = N` of a new block "
@@ -61,7 +67,10 @@ MANIFEST = {
                 "destroy_order under Bounded and `no payload stores a handle to the block` (consequences of DInv, not re-derived inside these lemmas).  "
                 "swap is translated as calls of the translated copy constructor / operator= / destructor on named objects (aliasing `&other == this` as a "
                 "separate branch).  IeeeRat.lean is a copy of the codec area's rounding definitions (proved equal to them); atof texts without integer "
-                "part, non-negative decimal exponents above 2^64, hex floats and %f remain definitions tied bit-exactly only.  Doubles are opaque in the theorems (any semantics of ==, casts, atof, printf %f): every "
+                "part and integers above 2^64 are covered since the third leg (dOfNat); hex floats and %f remain definitions tied bit-exactly only.  "
+                "OPEN (PropsGenWalk.lean): WalkLive (every cell on a nested path is live) is not yet derived from the model's invariant, so "
+                "deep_refines/deep_independent are stated over the model's walkMut, whose accessor step is proved equal to the translated body "
+                "one step at a time (accessCellT_eq, held_live).  Doubles are opaque in the theorems (any semantics of ==, casts, atof, printf %f): every "
                 "statement about the floating alternative is definitional, the double coercions are covered by the correspondence run "
                 "against Python floats (bit-exact for toDouble/atof, byte-exact for %f); about the driver's IEEE instance (Ieee.lean) only "
                 "the integer conversion is proved: toDouble() of bool/integers is dOfInt of the stored integer and dOfInt is the correctly "
